@@ -51,5 +51,7 @@ MCProgs(st) ==
     << Op("NR"), Rd(4096), Op("SRD"), Rd(4096), Op("SRD"), Op("RM"), Op("SRD"), Op("RM") >>,
     << Op("RM"), Op("SRD"), Op("RM"), Op("SRD"), Op("RM") >>,
     \* JoinMessages: the joined stream ends with an error, never silently
-    << Ja(0), Op("NR") >>, << Ja(2), Op("NR") >>, << Op("RM"), Ja(1), Op("NR") >> }
+    << Ja(0), Op("NR") >>, << Ja(2), Op("NR") >>, << Op("RM"), Ja(1), Op("NR") >>,
+    \* the application has sent its close and keeps reading (closing handshake): what arrives is still delivered
+    << Op("WCL"), Op("RM"), Op("RM"), Op("RM") >> }
 =============================================================================
